@@ -46,6 +46,7 @@ def ev_delay(ev):
 class InterpProp(Prop):
     n_ops = 30
     with_contracts = 0.0
+    anomaly_tags = ()       # which of the harness's own observations ('macro', 'meta') this property owns
     edited = 0.1            # share of cases whose statechart was used, edited through the API, and used again
     ignore_contract = False
     trusted = ['code fragments: Python subset interpreted by the model (harness/encode.py, Model/Py.lean)']
@@ -130,6 +131,8 @@ class InterpProp(Prop):
         o = json.loads(json.dumps(obs))
         for ob in o.get('obs', []):
             w = ob.get('world') or {}
+            w.pop('anomalies', None)             # the harness's own channel
+            w.pop('deliveries', None)
             for sl in w.get('slots', []):
                 sl.pop('unsupported', None)      # a model-side flag
                 if self.cmp_slot is not None:
@@ -165,6 +168,16 @@ class InterpProp(Prop):
                     elif self.cmp_err == 'class':
                         r['err'] = {'class': r['err'].get('class')}
         return o
+
+    def post_oracle(self, case, obs, res):
+        """observations of the harness's own listeners that this property owns"""
+        if res.violations or not self.anomaly_tags:
+            return
+        for k, ob in enumerate(obs.get('obs', [])):
+            for tag, text in (ob.get('world') or {}).get('anomalies', []):
+                if tag in self.anomaly_tags:
+                    res.violations.append('op %d: %s' % (k, text))
+                    return
 
     # ---- oracle skeleton: walk the ops of slot 0 ----------------------------------------------
     def oracle(self, case, obs, res):
@@ -220,7 +233,7 @@ class InterpProp(Prop):
                 cur = set(snap)
                 for s in m['exited']:
                     if isinstance(sc.state_for(s), oracles.CompoundState):
-                        gh.last_exit[s] = (cur & set(sc.children_for(s)), cur & set(sc.descendants_for(s)))
+                        gh.last_exit[s] = (cur & set(sc.children_for(s)), cur & set(oracles.tree(sc).descendants_for(s)))
                     snap.discard(s)
                 if m['transition'] is not None:
                     gh.idle_at[info['trans'][m['transition']].source] = t
